@@ -1,5 +1,7 @@
 use mmsim::sut::*;
 fn main() {
+    mmsim::sut::maybe_act_as_cli_subprocess();
+    mmsim::sut::init_cli_env();
     mmsim::util::install_counting_logger();
     mmsim::util::install_quiet_panic_hook();
     let opts = SutOptions { with_scheduler: true, sample_rate: 48000 };
